@@ -114,7 +114,7 @@ IEval(n, p, T, sc, c, s, bk, k) ==
                       ELSE Res(Ok(IF IsAny(r.r[2]) THEN r.r[2]
                                   ELSE IF T = "b" THEN MkB(~r.r[2][2])          \* legacy: the operator is not consulted
                                   ELSE IF T = "i" THEN MkI(-r.r[2][2])
-                                  ELSE IF T = "f" THEN FNeg(r.r[2])
+                                  ELSE IF T = "f" THEN ENeg(r.r[2])
                                   ELSE MkD(-r.r[2][2])), r.c, r.s)
       [] n[1] = "X" ->
             LET ty == IType(n, p, sc, c) IN
@@ -235,27 +235,26 @@ Init ==
     /\ rstate = [k \in Copies |-> St0(ast)]
     /\ bad = <<>>
 
-LeftDecides(a, sc, st) ==       \* a is l AND/OR r and the left operand decides the result
+LeftDecides(a, sc, st) ==       \* a is l AND/OR r, it type-checks, and the left operand decides the result
     /\ a[1] = "B" /\ a[2] \in Logic
-    /\ Eval(a[3], <<1>>, sc, st, <<>>)[1] = (IF a[2] = "AND" THEN False ELSE True)
+    /\ NType(a[3], sc) = "b" /\ NType(a[4], sc) = "b"
+    /\ Eval(a[3], <<1>>, sc, st, <<>>, "*")[1] = (IF a[2] = "AND" THEN False ELSE True)
 
 (* (TLC re-evaluates a LET definition that depends on the state at every use: the three evaluations of a step *)
 (* are bound once as values through quantifiers over singleton sets.)                                          *)
 Step(sc, mode, k) ==
     \E impl \in {ApiCall(ast, mode, sc, cache, fstate, k)} :
     \E fresh \in {IF cache = cache0 THEN impl ELSE ApiCall(ast, mode, sc, cache0, fstate, k)} :   \* the same call on a freshly compiled node
-    \E ref \in {EvalTop(ast, sc, rstate[k])} :
+    \E ref \in {RefApi(mode, ast, sc, rstate[k])} :
     \E implSt \in {RefStateOf(ast, impl.s, k)} :
-    LET ill == TypeStrict(ast, sc) = "err"
-        okRef == OutcomeAgrees(mode, impl.o, ref[1], ill, HasCall(ast))
-        (* after an error the functions may or may not have been called, as far as the reference goes *)
-        stOK == IF mode = "T" THEN implSt = rstate[k]
-                ELSE IF IsErr(impl.o) \/ IsAny(ref[1]) THEN ErrStateOK(rstate[k], EvalAll(ast, <<>>, sc, rstate[k], <<>>)[2], implSt)
+    LET okRef == OutcomeAgrees(impl.o, ref[1])
+        (* the reference fixes the function state after every call; an undecided outcome (it may hide an error) leaves a range *)
+        stOK == IF ref[1][1] = "?" THEN implSt = ref[2] \/ ErrStateOK(rstate[k], EvalAll(ast, <<>>, sc, rstate[k], <<>>)[2], implSt)
                 ELSE implSt = ref[2]
         others == \A j \in Copies \ {k} : RefStateOf(ast, impl.s, j) = RefStateOf(ast, fstate, j)
         viol == IF impl.o # fresh.o \/ RefStateOf(ast, fresh.s, k) # implSt THEN <<"CacheIrrelevant", sc, mode, k, impl.o, fresh.o>>
                 ELSE IF ~IsErr(impl.o) /\ mode # "T" /\ IsErr(ref[1]) THEN <<"ErrorsAreErrors", sc, mode, k, impl.o, ref[1]>>
-                ELSE IF mode # "T" /\ ~IsErr(impl.o) /\ LeftDecides(ast, sc, rstate[k]) /\ (implSt # ref[2] \/ impl.o # ref[1])
+                ELSE IF mode \notin {"T"} /\ ~IsErr(impl.o) /\ LeftDecides(ast, sc, rstate[k]) /\ (implSt # ref[2] \/ impl.o # ref[1])
                      THEN <<"ShortCircuit", sc, mode, k, impl.o, ref[1]>>
                 ELSE IF ~okRef \/ ~stOK THEN <<"RefinesRef", sc, mode, k, impl.o, ref[1]>>
                 ELSE IF ~others THEN <<"CopiesIsolated", sc, mode, k, impl.o>>
@@ -263,7 +262,7 @@ Step(sc, mode, k) ==
     IN /\ bad = <<>>
        /\ cache' = impl.c
        /\ fstate' = impl.s
-       /\ rstate' = [rstate EXCEPT ![k] = IF mode = "T" THEN @ ELSE IF IsErr(impl.o) \/ IsAny(ref[1]) THEN implSt ELSE ref[2]]
+       /\ rstate' = [rstate EXCEPT ![k] = implSt]
        /\ bad' = viol
        /\ UNCHANGED <<ast, cache0>>
 
